@@ -73,6 +73,9 @@ type c10Req struct {
 	Script  []string `json:"script"` // per transport call: ok | s:<code> | net | hang | bad
 	Cancel  string   `json:"cancel"` // "" | before | during | backoff (all performed synchronously by the stub)
 	At      int      `json:"at"`     // transport call index the cancellation is tied to
+	// Pool: which of the `shared` server pools (0 = main pool, i > 0 = candidate pool i, selected by the
+	// header X-Verif-Pool) serves the request. With a circuit breaker all requests use the pool of request 0.
+	Pool int `json:"pool,omitempty"`
 }
 
 type c10Input struct {
@@ -80,7 +83,11 @@ type c10Input struct {
 	CB           *c10CB    `json:"cb"`
 	TimeoutNs    int64     `json:"timeoutNs"`
 	FailureCodes []int     `json:"failureCodes"`
-	Reqs         []c10Req  `json:"reqs"`
+	// Shared: number of server pools of the Proxy that name the SAME retry (and circuit breaker) policy object
+	// (0/1 = main pool only; k > 1 = main pool + k-1 candidate pools). Proxy.InjectResiliencePolicy then calls
+	// CreateWrapper k times on the one policy object; every wrapper must behave as if it were the only one.
+	Shared int      `json:"shared,omitempty"`
+	Reqs   []c10Req `json:"reqs"`
 }
 
 type c10ReqObs struct {
@@ -236,8 +243,22 @@ func c10Gen(r *verifh.Rand, i int) interface{} {
 	if defaultWait || lateCancel {
 		nreq = 1
 	}
+	if in.Retry != nil {
+		in.Shared = r.PickInt(1, 1, 2, 2, 3)
+	}
+	cbPool := 0
+	if in.Shared > 1 {
+		cbPool = r.Intn(in.Shared)
+	}
 	for q := 0; q < nreq; q++ {
 		rq := c10Req{Stream: r.Bool(1, 4)}
+		if in.Shared > 1 {
+			if in.CB != nil {
+				rq.Pool = cbPool
+			} else {
+				rq.Pool = r.Intn(in.Shared)
+			}
+		}
 		rq.Payload = r.Pick("", "", "x", "0123456789abcdef0123456789abcdef", "{\"k\":\"v\"}", "-")
 		if rq.Stream {
 			rq.SKind = r.Pick("", "", "cl0", "cl0", "clneg", "unk0")
@@ -405,7 +426,21 @@ func c10Exec(raw json.RawMessage) interface{} {
 			PermittedNumberOfCallsInHalfOpen: 1, MinimumNumberOfCalls: uint32(in.CB.MinCalls),
 			SlowCallDurationThreshold: "1h", WaitDurationInOpen: "1h"}
 	}
-	rawSpec := map[string]interface{}{"name": "verif", "kind": Kind, "pools": []interface{}{pool}}
+	pools := []interface{}{pool}
+	shared := in.Shared
+	if shared > 4 {
+		shared = 4
+	}
+	for i := 1; i < shared; i++ {
+		cand := map[string]interface{}{}
+		for k, v := range pool {
+			cand[k] = v
+		}
+		cand["filter"] = map[string]interface{}{"headers": map[string]interface{}{
+			"X-Verif-Pool": map[string]interface{}{"exact": strconv.Itoa(i)}}}
+		pools = append(pools, cand)
+	}
+	rawSpec := map[string]interface{}{"name": "verif", "kind": Kind, "pools": pools}
 	spec, err := filters.NewSpec(nil, "", rawSpec)
 	if err != nil {
 		return map[string]string{"error": "spec: " + err.Error()}
@@ -414,6 +449,16 @@ func c10Exec(raw json.RawMessage) interface{} {
 	p.Init()
 	defer p.Close()
 	p.InjectResiliencePolicy(policies)
+	poolOf := func(qi int) int {
+		k := in.Reqs[qi].Pool
+		if in.CB != nil {
+			k = in.Reqs[0].Pool
+		}
+		if k < 0 || k > len(p.candidatePools) {
+			k = 0
+		}
+		return k
+	}
 
 	for qi := range in.Reqs {
 		rq := &in.Reqs[qi]
@@ -454,6 +499,11 @@ func c10Exec(raw json.RawMessage) interface{} {
 			} else {
 				req.FetchPayload(0)
 			}
+		}
+		sp := p.mainPool
+		if k := poolOf(qi); k > 0 {
+			req.Std().Header.Set("X-Verif-Pool", strconv.Itoa(k))
+			sp = p.candidatePools[k-1]
 		}
 		ctx := context.New(tracing.NoopSpan)
 		ctx.SetRequest(context.DefaultNamespace, req)
@@ -501,7 +551,7 @@ func c10Exec(raw json.RawMessage) interface{} {
 		if resp, ok := ctx.GetOutputResponse().(*httpprot.Response); ok && resp != nil {
 			ro.Status = resp.StatusCode()
 		}
-		if w, ok := p.mainPool.circuitBreakerWrapper.(interface{ State() libcb.State }); ok && p.mainPool.circuitBreakerWrapper != nil {
+		if w, ok := sp.circuitBreakerWrapper.(interface{ State() libcb.State }); ok && sp.circuitBreakerWrapper != nil {
 			ro.CBState = int(w.State())
 		}
 		obs.Reqs = append(obs.Reqs, ro)
